@@ -1084,3 +1084,32 @@ FUNCTIONS += [
         stmt_rules=[(r'^hexdump\(&t, sizeof\(T\), os\)$', 'acts := acts ++ [PrTok.hexdump]')],
     ),
 ]
+
+# ----------------------------------------------------------------------------------------------
+# what `_k` is bound to (C09, C19): mkarg<N>(params) -> arg<N>(&params, bool_constant<N <= tuple_size>)
+
+FUNCTIONS += [
+    dict(
+        name='arg_in_range', cxx='trompeloeil::arg<N>(T*, std::true_type)', file=MOCK, module='ArgInRange',
+        header=r'arg\(\s*T\* t,\s*std::true_type\)\s*TROMPELOEIL_TRAILING_RETURN_TYPE\(R\)',
+        pre=[(r'std::get<N-1>\(\*t\)\.get\(\)', 'TUPLE_ELEMENT(N - 1)')],
+        lean_sig='(N : Nat) : Nat',
+        vars={'N': 'N'},
+        ret_rules=[(r'^TUPLE_ELEMENT\(N - 1\)$', 'N - 1')],      # the reference the tuple holds at position N-1
+    ),
+    dict(
+        name='arg_out_of_range', cxx='trompeloeil::arg<N>(void const*, std::false_type)', file=MOCK, module='ArgOutOfRange',
+        header=r'arg\(\s*void const\*,\s*std::false_type\)\s*noexcept',
+        pre=[(r'return\s*\{\s*\}\s*;', 'return ILLEGAL_ARGUMENT;')],
+        lean_sig=': Option Nat',
+        ret_rules=[(r'^ILLEGAL_ARGUMENT$', 'none')],              # a value of type illegal_argument
+    ),
+    dict(
+        name='mkarg', cxx='trompeloeil::mkarg<N>', file=MOCK, module='Mkarg', imports=['ArgInRange', 'ArgOutOfRange'],
+        header=r'mkarg\(\s*T& t\)\s*noexcept\s*TROMPELOEIL_TRAILING_RETURN_TYPE\(R\)',
+        # overload resolution on the tag: true_type selects the tuple element, false_type the illegal_argument
+        pre=[(r'arg<N>\(&t, std::integral_constant<bool, \(N <= std::tuple_size<T>::value\)>\{\}\)', 'ARG_DISPATCH')],
+        lean_sig='(N size : Nat) : Option Nat',
+        ret_rules=[(r'^ARG_DISPATCH$', 'if N ≤ size then some (arg_in_range N) else arg_out_of_range')],
+    ),
+]
